@@ -39,6 +39,9 @@ def oracle(sc, out):
             res.append(("started-twice", "payload %d (%s, %s) was started %d times" % (p["pid"], p["fl"], p.get("mode"), n)))
         if n == 0 and not late:
             res.append(("not-started", "payload %d (%s, %s) was never started" % (p["pid"], p["fl"], p.get("mode"))))
+        sd = next((e for e in log if e["kind"] == "shutdown-call"), None)
+        if n == 1 and not late and sd is not None and starts[p["pid"]][0]["seq"] > sd["seq"]:
+            res.append(("not-started", "payload %d (%s, %s) was not started while the runtime was up (it only began when the shutdown woke its runner)" % (p["pid"], p["fl"], p.get("mode"))))
         for s in starts.get(p["pid"], []):
             if not s.get("args_ok"):
                 res.append(("wrong-arguments", "payload %d did not receive exactly the supplied arguments" % p["pid"]))
